@@ -110,7 +110,14 @@ impl Cancel for Brakedown {}
 
 pub fn check_trait<S: Cancel + crate::attacks::Attack>(c: &Case, ctx: &mut CaseCtx) -> Result<(), Failure> {
     let tier = current_tier();
-    let Ok(sess) = Session::<S>::build(&c.scn, tier) else {
+    // the prover-built forgeries work on polynomials without degree bounds: strip them for that mode
+    let mut scn_forge = c.scn.clone();
+    if c.variant == 10 {
+        for p in scn_forge.polys.iter_mut() {
+            p.bound = 0;
+        }
+    }
+    let Ok(sess) = Session::<S>::build(&scn_forge, tier) else {
         ctx.label("build_failed(C01)");
         return Ok(());
     };
